@@ -18,7 +18,9 @@ LEVEL_TEXT = ("Theorems c12_generated_exact / c12_flu_exact / c12_ftha_exact / c
               "modelled set answers like a sorted list of unique keys, never accesses memory outside its allocated block and "
               "keeps size <= rsize (induction over the history with the abstraction firstn _sz _arr), the iterator returned by "
               "insert always designating the inserted element (c12_insert_never_stale, c12_insert_position; the routine before "
-              "5f81ca8 is kept as a refutation witness); three constructor corner cases are characterised and exhibited. "
+              "5f81ca8 is kept as a refutation witness); for sets built by every constructor (array, explicit, hash array -- the last one partial in the history: "
+              "c12_presorted_hash_partial, with c12_hash_residual_refuted for what the hash array still gets wrong while "
+              "attached); the three repaired constructor defects are kept as _orig_refuted witnesses. "
               "Sortedness / uniqueness of every dumped table (the theorems' hypothesis) is evaluated on each run.")
 LEVEL_NOTE = ("Trusted: Coq kernel, extraction, the hand transcriptions (checked by the correspondence run), harness/driver "
               "glue, std::map modelled as a first-wins association list, ASan/UBSan trapping accesses outside the exactly "
@@ -33,8 +35,8 @@ TRUSTED_BASE = ["Coq 8.16.1 kernel (coqc), vm_compute for the witnesses", "Extra
                 "g++ 12 -fsanitize=address,undefined: accesses outside an exactly sized heap block trap"]
 ASSUMPTIONS = ["std::map with the strcmp comparator behaves as an association list in which the first emplaced entry of a name wins",
                "keys of the field table fit an unsigned short (find_be's parameter type); msgtype / name probes contain no NUL",
-               "the uninitialised _rsz of the hash-array constructor is only observed through the fault it causes (ASan fills fresh "
-               "heap memory with 0xbe, so the fault is deterministic)",
+               "hash-built sets are constructed from non-empty tables strictly sorted by key (the constructor's precondition; "
+               "evaluated on every dumped schema table)",
                "the hint-iterator overloads of FieldTraits (has/get/getPos/getComp with an iterator) are exercised only with an end() hint"]
 RULE = ("tables dumped from the real metadata on each run (UTEST; thorough: also FIX44): F8MetaCntx::find_be and _be.find_* for "
         "ALL tags 0..65535 (exhaustive); every message / group / header / trailer trait table for all tags 0..maxfnum+300 plus "
@@ -163,7 +165,7 @@ def table_cases(sfx, d, rng, tier):
 # ---- presorted_set histories; python mirrors the growth policy only to AIM the generator ----
 def calc_reserve(sz, res):
     if sz == 0:
-        return res
+        return res if res else 1
     v = sz * res // 100
     return v if v else 1
 
@@ -173,17 +175,16 @@ def gen_history(rng, kind, clean, maxkey):
     nmax = rng.choice((0, 1, 2, 3, 5, 8, 12))
     if kind == "A":
         keys = sorted(rng.sample(range(maxkey + 1), min(nmax, maxkey + 1)))
-        reserve = rng.choice((1, 10, 30, 30, 50, 100, 300, 1000)) if keys else rng.choice((1, 2, 3, 5, 30))
-        if keys and rng.random() < 0.15:
-            reserve = 0
+        reserve = rng.choice((0, 1, 10, 30, 30, 50, 100, 300, 1000)) if keys else rng.choice((0, 1, 2, 3, 5, 30))
         tab = [(k, rng.randrange(0, 1000)) for k in keys]
         ctor = "A:%d:%s" % (reserve, ",".join("%d.%d" % kp for kp in tab))
         cur = dict(tab)
         sz, rsz = len(tab), len(tab) + calc_reserve(len(tab), reserve)
     else:
-        reserve = rng.choice((1, 2, 3, 5, 30))
-        ctor = "E:0:%d" % reserve
-        cur, sz, rsz = {}, 0, reserve
+        reserve = rng.choice((0, 1, 2, 3, 5, 30))
+        esz = rng.choice((0, 0, 1, 3, 7))
+        ctor = "E:%d:%d" % (esz, reserve)
+        cur, sz, rsz = {}, 0, esz + calc_reserve(esz, reserve)
     n = rng.choice((5, 10, 20, 50, 100, 200))
     ops = []
     for _ in range(n):
@@ -244,40 +245,63 @@ def history_cases(rng, tier):
                 ctor, ops = gen_history(rng, kind, clean, mk)
                 if ops:
                     cs.append(Case("%s %s %s" % (op, ctor, " ".join(ops)), "%s-history-%s" % (op, "no-realloc" if clean else "realloc")))
-    # sets built by the hash-array constructor: lookups and duplicate inserts
+    # the former corner constructors (reserve 0, explicit size), fixed by 432f45d / a311e58: ordinary histories now
+    for i in range(6 if thorough else 2):
+        k = rng.randrange(0, 50)
+        a, b = ("PS", "PG") if i % 2 == 0 else ("PG", "PS")
+        cs.append(Case("%s E:0:0 f%d i%d.1 f%d i%d.2 t0 t1" % (a, k, k, k, k + 1), "reserve-zero"))
+        cs.append(Case("%s A:0: i%d.1 f%d c i%d.3" % (b, k, k, k), "reserve-zero"))
+        cs.append(Case("%s E:%d:30 f%d t0 i%d.7 f%d" % (a, rng.randrange(1, 6), k, k, k), "explicit-size"))
+        cs.append(Case("%s E:%d:0 i%d.7 i%d.8 a%d" % (b, rng.randrange(1, 6), k, k + 2, k + 1), "explicit-size"))
+    # sets built by the hash-array constructor (what every message's trait set is): lookups, then inserts /
+    # clears; while the hash array is attached find(answer) only for present keys and no lookup after a clear
+    # (those two are the residual findings, generated apart)
     for _ in range(reps):
         mk = rng.choice((6, 15, 40, 300))
         keys = sorted(rng.sample(range(mk + 1), rng.randrange(1, min(12, mk + 1))))
         tab = ",".join("%d.%d" % (k, rng.randrange(1000)) for k in keys)
         ops = []
+        mode = "intact"
         for _ in range(rng.choice((5, 20, 60))):
             r = rng.random()
             k = rng.randrange(0, mk + 3)
-            if r < 0.6:
-                ops.append("f%d" % k)
-            elif r < 0.75:
-                ops.append("t%d" % rng.randrange(0, len(keys) + 2))
-            elif r < 0.85:
-                ops.append("a%d" % rng.choice(keys))
+            p = rng.randrange(1000)
+            if mode == "intact":
+                if r < 0.45:
+                    ops.append("f%d" % k)
+                elif r < 0.55:
+                    ops.append("t%d" % rng.randrange(0, len(keys) + 2))
+                elif r < 0.65:
+                    ops.append("a%d" % rng.choice(keys))
+                elif r < 0.80:
+                    ops.append("i%d.%d" % (rng.choice(keys) if rng.random() < 0.4 else k, p))
+                    mode = "detached"
+                elif r < 0.88:
+                    ops.append("r%d.%d/%d.%d" % (k, p, rng.randrange(0, mk + 3), p))
+                    mode = "detached"
+                elif r < 0.92:
+                    ops.append("r")
+                else:
+                    ops.append("c")
+                    mode = "cleared"
+            elif mode == "cleared":
+                if r < 0.3:
+                    ops.append("t%d" % rng.randrange(0, 3))
+                elif r < 0.4:
+                    ops.append("c")
+                else:
+                    ops.append("i%d.%d" % (k, p))
+                    mode = "detached"
             else:
-                ops.append("i%d.%d" % (rng.choice(keys), rng.randrange(1000)))
-        cs.append(Case("PS H:%s %s" % (tab, " ".join(ops)), "PS-hash-lookups"))
-    # the corner constructors (known findings); each faulting case costs a harness restart, so few of them
-    n_fault = 6 if thorough else 1
-    for i in range(n_fault):
-        k = rng.randrange(0, 50)
-        a, b = ("PS", "PG") if i % 2 == 0 else ("PG", "PS")
-        cs.append(Case("%s E:0:0 f%d i%d.1 f%d" % (a, k, k, k), "reserve-zero"))
-        cs.append(Case("%s A:0: i%d.1" % (b, k), "reserve-zero"))
-        cs.append(Case("%s E:%d:30 f%d" % (a, rng.randrange(1, 6), k), "explicit-size"))
-        cs.append(Case("%s E:%d:30 i%d.7" % (b, rng.randrange(1, 6), k), "explicit-size"))
-    for i in range(n_fault * 2):
-        keys = sorted(rng.sample(range(40), rng.randrange(1, 8)))
+                ops.append(rng.choice(("f%d" % k, "a%d" % k, "t%d" % rng.randrange(0, 14), "i%d.%d" % (k, p), "i%d.%d" % (k, p),
+                                       "r%d.%d/%d.%d" % (k, p, rng.randrange(0, mk + 3), p), "c", "f%d" % rng.choice(keys))))
+        cs.append(Case("PS H:%s %s" % (tab, " ".join(ops)), "PS-hash-history"))
+    for i in range(4 if not thorough else 40):
+        keys = sorted(rng.sample(range(40), rng.randrange(2, 8)))
         absent = next(k for k in range(41) if k not in keys)
         tab = ",".join("%d.1" % k for k in keys)
-        if i % 2 == 0:
-            cs.append(Case("PS H:%s f%d i%d.5" % (tab, keys[0], absent), "hash-insert"))
-        cs.append(Case("PS H:%s a%d f%d" % (tab, absent, absent), "hash-insert"))
+        cs.append(Case("PS H:%s f%d a%d f%d i%d.5 a%d f%d" % (tab, keys[0], absent, absent, absent, absent, absent), "hash-attached-find-answer"))
+        cs.append(Case("PS H:%s f%d c f%d t0 i%d.5 f%d f%d" % (tab, keys[-1], keys[-1], absent, keys[-1], absent), "hash-attached-clear-find"))
     return cs
 
 
@@ -310,6 +334,8 @@ def synthetic_table_cases(rng, tier):
     thorough = tier == "thorough"
     for n in SYN_SIZES:
         for layout in ("dense", "sparse", "top"):
+            if n == 1000 and layout == "top" and not thorough:
+                continue        # the model costs O(table size) per tag; the 1000-entry table is dense / sparse in the quick tier
             for _ in range(3 if thorough else 1):
                 tags, tab = syn_table(rng, n, layout)
                 top = min(65535, tags[-1] + 300)
@@ -403,34 +429,52 @@ def c_explicit_size(case, r, m):
 
 
 def c_hash_absent_key(case, r, m):
-    """hash-array constructor: an insert or find(answer) of a key that is not in the table"""
-    if not case.line.startswith("PS "):
+    """(before b713cdd) hash-array constructor: an insert of a key that is not in the table faulted"""
+    if not case.line.startswith("PS ") or r != "FAULT":
         return False
     op, ctor, ops = _hist(case)
     if ctor[0] != "H" or ctor[1] == "":
         return False
     keys = set(int(x.split(".")[0]) for x in ctor[1].split(",") if x)
-    absent_ins = False
+    return any((o[0] == "i" and int(o[1:].split(".")[0]) not in keys) or
+               (o[0] == "r" and any(int(x.split(".")[0]) not in keys for x in o[1:].split("/") if x)) for o in ops)
+
+
+def _hash_phases(case):
+    """(find(answer) of an absent key while the hash array is attached, lookup between clear and the next insert)"""
+    op, ctor, ops = _hist(case)
+    if op != "PS" or ctor[0] != "H" or ctor[1] == "":
+        return None
+    keys = set(int(x.split(".")[0]) for x in ctor[1].split(",") if x)
+    mode, absent_answer, lookup_after_clear = "intact", False, False
     for o in ops:
-        if o[0] == "i" and int(o[1:].split(".")[0]) not in keys:
-            absent_ins = True
-        if o[0] == "r" and any(int(x.split(".")[0]) not in keys for x in o[1:].split("/") if x):
-            absent_ins = True
-    absent_ans = any(o[0] == "a" and int(o[1:]) not in keys for o in ops)
-    if r == "FAULT":
-        return absent_ins
-    # no fault: the only deviation is the null position reported for an absent key
-    toks = r.split(",")
-    if len(toks) != len(ops) or not absent_ans or absent_ins:
-        return False
-    for o, t in zip(ops, toks):
-        if t.split("/")[0] == "-:0" and not (o[0] == "a" and int(o[1:]) not in keys):
-            return False
-    return True
+        if mode == "detached":
+            break
+        if o[0] == "i" or (o[0] == "r" and len(o) > 1):
+            mode = "detached"
+        elif o[0] == "c":
+            mode = "cleared"
+        elif o[0] in "fa":
+            if mode == "cleared":
+                lookup_after_clear = True
+            elif o[0] == "a" and int(o[1:]) not in keys:
+                absent_answer = True
+    return absent_answer, lookup_after_clear
+
+
+def c_hash_attached_answer(case, r, m):
+    ph = _hash_phases(case) if case.line.startswith("PS ") and r != "FAULT" else None
+    return bool(ph) and ph[0] and not ph[1]
+
+
+def c_hash_attached_clear(case, r, m):
+    ph = _hash_phases(case) if case.line.startswith("PS ") and r != "FAULT" else None
+    return bool(ph) and ph[1] and not ph[0]
 
 
 CLASSIFIERS = {"insert-into-full-set": c_insert_full_set, "reserve-zero-first-insert": c_reserve_zero,
-               "explicit-ctor-nonzero-size": c_explicit_size, "hash-ctor-absent-key": c_hash_absent_key}
+               "explicit-ctor-nonzero-size": c_explicit_size, "hash-ctor-absent-key": c_hash_absent_key,
+               "hash-attached-find-answer-absent": c_hash_attached_answer, "hash-attached-lookup-after-clear": c_hash_attached_clear}
 
 
 def nontrivial(case, r):
